@@ -476,8 +476,49 @@ fn run_growth(sc: &ConnScenario, g: &crate::conn::Growth) -> RunReport {
     }
     let (d1, d2) = (marks[1] - marks[0], marks[2] - marks[1]);
     let slack = 16 * g.per_round as isize;
+    if (d1 != 0 || d2 != 0) && std::env::var("VERIF_DEBUG_GROWTH").is_ok() {
+        eprintln!("growth d1={d1} d2={d2} per_round={} vary={:?} muts={:?} mute={:?} close={:?} hostlen={} flood={} enc={:?} wplan={} intent={}", g.per_round, g.vary, sc.client.mutations.iter().map(|m| format!("{:?}", m.op).chars().take(30).collect::<String>()).collect::<Vec<_>>(), sc.client.mute_after, sc.client.close_after, sc.client.host.len(), sc.client.flood.is_some(), sc.client.enc, sc.wplan.len(), sc.client.intent);
+    }
     *rep.probes.entry(if d1 == 0 && d2 == 0 { "live_heap_unchanged_between_rounds" } else if d1.abs() <= slack && d2.abs() <= slack { "live_heap_changed_within_slack" } else { "live_heap_changed_in_one_round_only_or_shrank" }.into()).or_insert(0) += 1;
     if d1 > slack && d2 > slack {
+        // Growth round after round - or a bounded cache that is still filling up? Confirmation: 6 000 more connections in
+        // four blocks; only growth that is still going on in the last block (connections 4 500 to 6 000) is reported.
+        // (Skipped while the shrinker tries candidates; the scenario as found and the minimised one get the full verdict.)
+        if !crate::runner::SHRINKING.with(|s| s.get()) {
+            // (the live heap is sampled every 50 connections and the maxima of the last two blocks are compared, so that a
+            // cache that is emptied whenever it is full - a sawtooth - is recognised as bounded too)
+            let mut peaks = [isize::MIN; 5];
+            let began = std::time::Instant::now();
+            for peak in peaks.iter_mut().skip(1) {
+                for k in 0..1500 {
+                    // (an expensive scenario would take minutes here and trip the watchdog: give up without a verdict - a
+                    // cheaper scenario of the batch will carry the same growth)
+                    if k % 50 == 0 && began.elapsed().as_secs() >= 12 {
+                        *rep.probes.entry("live_heap_growth_confirmation_given_up_too_slow".into()).or_insert(0) += 1;
+                        return rep;
+                    }
+                    let s = varied(sc, g, n);
+                    n += 1;
+                    let out = run_conn(&s);
+                    rep.runs += 1;
+                    rep.sim_ns += out.end_ns;
+                    if !out.panics.is_empty() {
+                        return rep;
+                    }
+                    drop(out);
+                    drop(s);
+                    if k % 50 == 49 {
+                        *peak = (*peak).max(crate::alloc::live_bytes());
+                    }
+                }
+            }
+            let blocks = peaks;
+            *rep.probes.entry("live_heap_growth_confirmation_phase".into()).or_insert(0) += 1;
+            if blocks[4] - blocks[3] <= 16 * 1500 / 4 {
+                *rep.probes.entry("live_heap_growth_stopped_a_bounded_cache_filled_up".into()).or_insert(0) += 1;
+                return rep;
+            }
+        }
         rep.violate(
             "memory_is_released_after_the_connections",
             format!("after {0} more connections that differ only in {1:?} the process holds {d1} bytes more, after another {0} again {d2} bytes more", g.per_round, g.vary),
@@ -500,7 +541,7 @@ impl Check for C04 {
     fn assumptions(&self) -> Vec<String> {
         vec![
             "allocation is measured as the largest single request made on the simulation thread while the connection future is being polled (service stubs run inside that poll; their small log allocations are included, the event-log growth is excluded)".into(),
-            "live memory in a history is the thread's allocated-minus-freed byte count at points where every connection of the round is over and the harness has dropped what it built; growth is only reported when two consecutive rounds each add more than 16 bytes per connection (a one-time fill of a cache is not growth), and not at all when a run of the history panicked (the kept panic messages are harness memory)".into(),
+            "live memory in a history is the thread's allocated-minus-freed byte count at points where every connection of the round is over and the harness has dropped what it built; growth is only reported when two consecutive rounds each add more than 16 bytes per connection and, in a confirmation phase of 6 000 further connections, is still going on in the last 1 500 of them (a one-time fill of a cache, or a cache bounded by a few thousand entries, is not growth), and not at all when a run of the history panicked (the kept panic messages are harness memory)".into(),
             "whether an over-long VarInt or trailing bytes inside a frame count as malformed is the codec's business (C09); for those only no-panic / bounded allocation / termination are required".into(),
         ]
     }
